@@ -198,6 +198,31 @@ def apply_op(op, s, v, ps, real_t, D, num_threads=False):
 
 
 # --------------------------------------------------------------------------------------
+_VIEW_COUNT = [0]
+
+
+def as_view(a):
+    """the same data as a strided view of a larger buffer (guard cells of -777 around every axis but the leading component axis):
+    the library hands such views to its own kernels, so they are admissible operands of every kernel"""
+    a = np.asarray(a)
+    if a.dtype == object:
+        return a
+    lead = 1 if a.ndim >= 3 and a.shape[0] in (2, 3) and a.ndim in (3, 4) and a.shape[0] != a.shape[-1] else 0
+    pad = [(0, 0)] * lead + [(1, 2)] * (a.ndim - lead)
+    buf = np.full([n + lo + hi for n, (lo, hi) in zip(a.shape, pad)], -777, dtype=a.dtype)
+    idx = tuple(slice(lo, lo + n) for n, (lo, hi) in zip(a.shape, pad))
+    view = buf[idx]
+    view[...] = a
+    return view
+
+
+def operand(a, dtype=None):
+    """operand for a kernel replay: every third one is a strided view (see as_view), the others fresh contiguous arrays"""
+    a = np.array(a, dtype=dtype) if dtype is not None else np.array(a)
+    _VIEW_COUNT[0] += 1
+    return as_view(a) if _VIEW_COUNT[0] % 3 == 0 else a
+
+
 class Arena:
     """Allocates arrays either contiguously or as strided views of larger guard buffers."""
 
